@@ -151,22 +151,37 @@ structure LLocals where
 /-- `u16::from_le_bytes`. -/
 def le16 (bs : Bytes) : Nat := bs.getD 0 0 + 256 * bs.getD 1 0
 
+/-- step 1 of the loop body: `if pending_len.is_none() { read_infallible::<Length>() … }`.
+Returns the read outcome (`.none` = nothing read), the pending length and the buffer afterwards. -/
+def ldHeader (pending : Option Nat) (b : BufDeque) : ReadRes × Option Nat × BufDeque :=
+  match pending with
+  | some len => (.none, some len, b)
+  | none =>
+    match b.readBytes 2 with
+    | (.some bs, b1) => (.some bs, some (le16 bs), b1)
+    | (.none, b1) => (.none, none, b1)
+    | (.panic, b1) => (.panic, none, b1)
+
+/-- step 2: `if let Some(len) = pending_len { if len == 0 { Some(empty) } else { read_bytes(len) } }`. -/
+def ldBody (pending : Option Nat) (b : BufDeque) : ReadRes × BufDeque :=
+  match pending with
+  | none => (.none, b)
+  | some len => if len = 0 then (.some [], b) else b.readBytes len
+
+/-- `consumed_len` after the header step. -/
+def consumedAfter (h : ReadRes) (consumed : Nat) : Nat :=
+  match h with
+  | .some _ => consumed + 2
+  | _ => consumed
+
 def ldPoll : Nat → LState → LLocals → Item × LState
   | 0, s, _ => (.panic, s)
   | fuel + 1, s, l =>
-    -- 1. length header
-    let hdr : ReadRes × BufDeque := if s.pending.isNone then s.buf.readBytes 2 else (.none, s.buf)
-    match hdr with
-    | (.panic, b) => (.panic, { s with buf := b })
-    | (h, b1) =>
-      let pending := match h with | .some bs => some (le16 bs) | _ => s.pending
-      let consumed1 := match h with | .some _ => l.consumed + 2 | _ => l.consumed
-      -- 2. payload
-      let body : ReadRes × BufDeque :=
-        match pending with
-        | none => (.none, b1)
-        | some len => if len = 0 then (.some [], b1) else b1.readBytes len
-      match body with
+    match ldHeader s.pending s.buf with
+    | (.panic, _, b) => (.panic, { s with buf := b })
+    | (h, pending, b1) =>
+      let consumed1 := consumedAfter h l.consumed
+      match ldBody pending b1 with
       | (.panic, b) => (.panic, { s with buf := b })
       | (.some bs, b2) =>
         let consumed2 := consumed1 + bs.length
@@ -188,14 +203,18 @@ def ldPoll : Nat → LState → LLocals → Item × LState
           ldPoll fuel { buf := b3, pending := pending, up := rest }
             { l with available := av, consumed := consumed1 }
 
+/-- upper bound on the number of loop iterations of one `poll_next` (each iteration consumes a
+record or an upstream item). -/
+def ldFuel (s : LState) : Nat := 2 * (s.buf.size + totalBytes s.up) + s.up.length + 3
+
 def ldRun : Nat → LState → List Item
   | 0, _ => [.panic]
   | fuel + 1, s =>
-    match ldPoll (s.buf.size + totalBytes s.up + s.up.length + 2) s {} with
+    match ldPoll (ldFuel s) s {} with
     | (it, s') => if it.isTerminal then [it] else it :: ldRun fuel s'
 
 def lengthDelimited (up : List Up) : List Item :=
-  ldRun (totalBytes up + 2) { buf := .empty, pending := none, up := up }
+  ldRun (2 * totalBytes up + 2) { buf := .empty, pending := none, up := up }
 
 /-! ### `BufferedBytesStream` -/
 
